@@ -1467,3 +1467,9 @@ Proof. cbn. split; reflexivity. Qed.
 (* the machine of the theorems is the variant with the switches read from the source *)
 Lemma step_var_is_step mp s e : step_var open_closes_on_closed close_checks_identity mp s e = step_mp mp s e.
 Proof. destruct e; reflexivity. Qed.
+
+(* ---------- the configured queue length is the queue's capacity ---------- *)
+Lemma queue_cap_ok : queue_cap_is_configured = true.
+Proof. reflexivity. Qed.
+Theorem queue_length_is_configured rx q opened : init_mux_cfg rx q opened = init_mux rx q opened.
+Proof. unfold init_mux_cfg, eff_qlen. now rewrite queue_cap_ok. Qed.
